@@ -93,6 +93,35 @@ theorem C12_recursive_alias_guarded :
     checkTop e (.prim .string) (.ref "A".toList) = .recursion := by
   decide +kernel
 
+/-- **alias re-entry.** (after `fix:` alias-in-progress) Unfolding an alias against a compact type
+while the same `(alias, compact)` pair is already being unfolded further up the call stack answers
+`TypeRecursion` at once — for every environment, level and fuel; no union member below it is explored
+again. (`c` is not a union and not a direct member of the alias, as in `check_ref_type_compact`.) -/
+theorem C12_alias_reentry_stops (e : Env) (ip : List (Name × Ty)) (f lvl : Nat) (n : Name) (c o : Ty)
+    (d : Decl) (hd : e.find n = some d) (hk : d.kind = .alias (some o)) (hu : c.isUnion = false)
+    (hc : (match o with
+      | .union oms => oms.toList.contains c
+      | _ => decide (o = c)) = false)
+    (hip : (n, c) ∈ ip) : checkRef e ip (f + 1) lvl n c = .recursion := by
+  unfold checkRef
+  simp only [hd, hk]
+  cases c with
+  | union _ => simp [Ty.isUnion] at hu
+  | _ => simp only [hc]; simp [hip]
+
+/-- the alias pairs recorded on the way down are exactly the unfoldings in progress: one more per
+unfolding, so an unfolding chain cannot be longer than the number of distinct `(alias, compact)`
+pairs — the former exponential case (known finding `C12-cyclic-alias-blowup`, fixed) is answered
+after a handful of steps -/
+theorem C12_cyclic_union_alias_answered :
+    let e : Env := { decls := [
+      { name := "A".toList, kind := .cls, supers := [] },
+      { name := "AL0".toList, kind := .alias (some (Ty.mk [.ref "AL1".toList, .ref "AL0".toList])), supers := [] },
+      { name := "AL1".toList, kind := .alias (some (Ty.mk [.ref "AL1".toList, .ref "AL0".toList])), supers := [] }] }
+    checkTop e (.ref "AL0".toList) (.ref "A".toList) = .notMatch ∧
+      checkGeneral e [] 40 0 (.ref "AL0".toList) (.ref "A".toList) = .notMatch := by
+  decide +kernel
+
 /-- **humanizer depth guard.** With no depth left nothing is rendered (the real code writes `...`),
 for every type and level -/
 theorem C12_humanizer_guard (d lv : Nat) (t : Ty) : toCst d 0 lv t = none := by
